@@ -488,6 +488,9 @@ def run(ctx):
         run_demo(ctx, 'demo_tr3.py', [1 + ctx.seed], 'c01-code-vs-generated-vs-model',
                  'inference / leaf likelihood code vs generated definitions vs model', env_extra=dict(DEMO_SECTIONS='a'))
         if ctx.n_new() == 0:
+            run_demo(ctx, 'demo_tr5eval.py', [1 + ctx.seed], 'c01-eval-loops-generated',
+                     'eval_bottom_up / eval_top_down / moment: implementation = the LOOPS generated from the source = model')
+        if ctx.n_new() == 0:
             run_demo(ctx, 'demo_leaves.py', [20260929 + ctx.seed], 'c01-leaf-families-vs-model',
                      'leaf densities (incl. the Gaussian leaf as SciPy evaluates it: GaussTheory) against the exact leaf theory')
 
